@@ -50,7 +50,7 @@ type env struct {
 	goErr  *goja.Object // the GoError constructor
 	myErr  *goja.Object
 	tyErr  *goja.Object
-	setupE string
+	used   int // number of cases run on this runtime
 }
 
 type dynObj struct{ get func() goja.Value }
@@ -63,8 +63,9 @@ func (d *dynObj) Keys() []string                    { return nil }
 
 type setupError string
 
-func newEnv(c *Chain) *env {
-	en := &env{c: c, r: goja.New(), token: &intrToken{1}}
+// newEnv makes a fresh runtime with the fixed part of the world (prelude, value table, LOG/INTR natives).
+func newEnv() *env {
+	en := &env{r: goja.New()}
 	r := en.r
 	r.SetMaxCallStackSize(maxCallStack)
 	goja.VerifSetStepHook(r, func(r *goja.Runtime) {
@@ -103,6 +104,19 @@ func newEnv(c *Chain) *env {
 	en.goErr = r.Get("GoError").(*goja.Object)
 	en.myErr = r.Get("MyErr").(*goja.Object)
 	en.tyErr = r.Get("TypeError").(*goja.Object)
+	return en
+}
+
+// reset prepares the (fresh or reused) runtime for chain c.
+func (en *env) reset(c *Chain) {
+	r := en.r
+	en.c = c
+	en.log = en.log[:0]
+	en.steps, en.budget = 0, false
+	en.token = &intrToken{en.used}
+	en.used++
+	en.preEx = nil
+	en.vals[vGoErr], en.vals[vGoWrap], en.vals[vGoJoin] = nil, nil, nil
 	switch c.Payload {
 	case pGoErr:
 		en.vals[vGoErr] = r.NewGoError(errSentinel)
@@ -121,7 +135,6 @@ func newEnv(c *Chain) *env {
 	if c.Payload.isValue() && c.Payload != pErr {
 		r.Set("P", en.vals[int(c.Payload)])
 	}
-	return en
 }
 
 func (en *env) logf(tag string, frame int) { en.log = append(en.log, logEntry{Tag: tag, Frame: frame}) }
